@@ -191,6 +191,7 @@ class SymInterp:
             return
         if isinstance(s, ast.For):
             it = self.ev(s.iter, env)
+            broken = False
             for x in it:
                 self.assign(s.target, x, env)
                 try:
@@ -198,7 +199,10 @@ class SymInterp:
                 except _Continue:
                     continue
                 except _Break:
+                    broken = True
                     break
+            if not broken:
+                self.block(s.orelse, env, fi)
             return
         if isinstance(s, ast.While):
             n = 0
